@@ -216,6 +216,7 @@ var skTable = map[string]skAction{
 	"sendDataWriter.deliver":               {inline: "sendDataWriter.deliver"},
 	"trzszTransfer.pipelineRecvFinalAck":   {inline: "trzszTransfer.pipelineRecvFinalAck"},
 	"trzszTransfer.pipelineRecvCurrentAck": {inline: "trzszTransfer.pipelineRecvCurrentAck"},
+	"trzszTransfer.bufInitDone":            {inline: "trzszTransfer.bufInitDone"}, // hooks/fix_bufinit.diff
 	// hashing: pure
 	"md5.New().Write": {none: true}, "md5.New().Sum": {none: true},
 	// progress callbacks write to the terminal
